@@ -30,6 +30,8 @@ struct HeartbeatState {
     interval: Duration,
     timeout: Duration,
     last_received: tokio::sync::Mutex<Instant>,
+    /// Number of HeartResponse frames received so far
+    responses: std::sync::atomic::AtomicU64,
 }
 
 /// Session manages multiple streams over a single TLS connection
@@ -124,6 +126,7 @@ impl Session {
                 interval: cfg.interval,
                 timeout: cfg.timeout,
                 last_received: tokio::sync::Mutex::new(Instant::now()),
+                responses: std::sync::atomic::AtomicU64::new(0),
             })
         });
 
@@ -758,6 +761,9 @@ impl Session {
                 if let Some(heartbeat_state) = &self.heartbeat {
                     let mut last = heartbeat_state.last_received.lock().await;
                     *last = Instant::now();
+                    heartbeat_state
+                        .responses
+                        .fetch_add(1, std::sync::atomic::Ordering::Relaxed);
                 }
             }
             _ => {
@@ -1199,8 +1205,26 @@ impl Session {
                 let mut ticker = time::interval(heartbeat_state.interval);
                 ticker.set_missed_tick_behavior(MissedTickBehavior::Delay);
 
+                // The oldest request that no response has followed yet: the instant it was
+                // sent and the number of responses seen by then. The peer is declared dead
+                // when such a request stays unanswered for `timeout` - not when a tick finds
+                // the last response older than `timeout`, which closes healthy sessions
+                // whenever `timeout` is not a multiple of `interval` (e.g. timeout < interval).
+                let mut outstanding: Option<(Instant, u64)> = None;
+
                 loop {
-                    ticker.tick().await;
+                    let deadline =
+                        outstanding.and_then(|(sent, _)| sent.checked_add(heartbeat_state.timeout));
+                    let expired = async {
+                        match deadline {
+                            Some(deadline) => time::sleep_until(deadline).await,
+                            None => std::future::pending::<()>().await,
+                        }
+                    };
+                    let is_tick = tokio::select! {
+                        _ = ticker.tick() => true,
+                        _ = expired => false,
+                    };
 
                     if session.is_closed() {
                         tracing::debug!(
@@ -1210,25 +1234,39 @@ impl Session {
                         break;
                     }
 
-                    let last_seen = {
-                        let guard = heartbeat_state.last_received.lock().await;
-                        Instant::now().saturating_duration_since(*guard)
-                    };
-
-                    if last_seen > heartbeat_state.timeout {
-                        tracing::warn!(
-                            session_id = session_id,
-                            elapsed_ms = last_seen.as_millis() as u64,
-                            "[Session] Heartbeat timeout detected; closing session"
-                        );
-                        if let Err(e) = session.close().await {
-                            tracing::error!(
+                    let responses = heartbeat_state
+                        .responses
+                        .load(std::sync::atomic::Ordering::Relaxed);
+                    if let Some((sent, seen)) = outstanding {
+                        if responses > seen {
+                            outstanding = None;
+                        } else if sent.elapsed() >= heartbeat_state.timeout {
+                            let last_seen = {
+                                let guard = heartbeat_state.last_received.lock().await;
+                                Instant::now().saturating_duration_since(*guard)
+                            };
+                            tracing::warn!(
                                 session_id = session_id,
-                                "[Session] Failed to close session after heartbeat timeout: {}",
-                                e
+                                elapsed_ms = last_seen.as_millis() as u64,
+                                "[Session] Heartbeat timeout detected; closing session"
                             );
+                            if let Err(e) = session.close().await {
+                                tracing::error!(
+                                    session_id = session_id,
+                                    "[Session] Failed to close session after heartbeat timeout: {}",
+                                    e
+                                );
+                            }
+                            break;
                         }
-                        break;
+                    }
+
+                    if !is_tick {
+                        continue;
+                    }
+
+                    if outstanding.is_none() {
+                        outstanding = Some((Instant::now(), responses));
                     }
 
                     if let Err(e) = session
